@@ -151,40 +151,48 @@ def r3_job_table(ctx):
     ctx.floor("C18.R3.sites", n, 2)
     fi = repo.func(f"{R}.JobRouter.spawn_job")
     ctx.analysed(fi.qual)
-    paths = Interp(repo).explore(fi)
+
+    def uuid4(run, a, k, n, f):
+        run.model_u = getattr(run, "model_u", 0) + 1
+        return "taken" if run.model_u == 1 else f"fresh{run.model_u}"
+    router, j1, j2 = _router()
+    router.fields["jobs"] = {"taken": j1}
+    ip = Interp(repo, call_models={"uuid.uuid4": uuid4, f"{R}._spawn_subprocess": lambda run, a, k, n, f: None},
+                inline={"cascade.low.func.next_uuid"}, max_while=4)
+    paths = ip.explore(fi, args={"self": router})
     ctx.evals(len(paths))
     for p in paths:
         if p.exit[0] != "return":
+            ctx.undecided("C18.R3", loc(fi), f"spawn_job on the model router: {p.exit[0]} {vkey(p.exit[1])[:80]}")
             continue
-        nu = [e for e in p.effects if is_call(e, qual="cascade.low.func.next_uuid")]
-        st = [e for e in p.effects if e.kind == "store" and (e.data.get("field") or "").endswith("JobRouter.jobs")]
-        if len(nu) != 1 or "self.jobs.keys()" not in vkey(nu[0].data["args"][0]):
-            ctx.violation("C18.R3", fi.qual, loc(fi), "fresh job id", "the job id is not drawn with next_uuid over the existing job ids")
+        jid = p.exit[1]
+        st = [e for e in p.effects if e.kind == "store" and e.data.get("subscript") and e.data.get("index") == jid and isinstance(e.data.get("base"), dict)]
+        if jid == "taken" or not isinstance(jid, str):
+            ctx.violation("C18.R3", fi.qual, loc(fi), "fresh job id",
+                          f"with a job 'taken' registered and the id generator drawing 'taken' first, spawn_job returns {vkey(jid)}: an id already in use must be redrawn (ids are never reused)")
             continue
-        jid = nu[0].data["result"]
-        if len(st) != 1 or st[0].data["index"] != jid or p.exit[1] != jid:
-            ctx.violation("C18.R3", fi.qual, loc(fi), "job registered under its id", "the new job is not stored/returned under the freshly drawn id")
+        if len(st) != 1:
+            ctx.violation("C18.R3", fi.qual, loc(fi), "job registered under its id", "the new job is not stored under the id that is returned")
             continue
         v = st[0].data["value"]
         fresh = None
         if isinstance(v, Obj) and v.cls == f"{R}.Job":
             res = v.fields.get("results")
-            fresh = isinstance(res, dict) and not res and st[0].data.get("value_ref") is None
-            if isinstance(res, dict) and not res:
-                fresh = True
-            elif res is not None:
-                fresh = False
+            fresh = isinstance(res, dict) and not res
         elif isinstance(v, App) and v.fname.rsplit(".", 1)[-1] in ("replace", "copy", "model_copy"):
             res = v.kw("results")
             fresh = isinstance(res, dict) and not res
+        jobs_after = st[0].data["base"]
         if fresh is None:
             ctx.undecided("C18.R3", loc(fi, st[0].node), f"cannot see how the new Job is built: {vkey(v)[:120]}")
         elif not fresh:
             ctx.violation("C18.R3", fi.qual, loc(fi, st[0].node), "fresh result container per job",
                           f"the new job is built as {vkey(v)[:140]}: its results mapping is not a fresh empty dict created for this job, so jobs "
                           f"share uploaded results (a result is returned for a job it was not uploaded for)")
+        elif "taken" not in jobs_after:
+            ctx.violation("C18.R3", fi.qual, loc(fi), "existing jobs kept", "registering a new job drops an existing one")
         else:
-            ctx.ok("C18.R3", loc(fi, st[0].node), "new job: fresh id from next_uuid, stored under it, fresh empty results mapping")
+            ctx.ok("C18.R3", loc(fi, st[0].node), "new job: id redrawn until unused, stored under it, fresh empty results mapping, existing jobs kept")
 
 
 def r4_frontend(ctx):
